@@ -96,10 +96,12 @@ def gen_spec(rng, kinds=("grid", "cvt", "cvt_brute", "cvt_chunk", "sliding"), cm
         spec["lr"] = rng.choice([0.0, 0.25, 0.5, 0.75, 1.0, 0.1, 0.3])
         spec["tmin"] = rng.choice([-4.0, 0.0, 1.5, -100.0])
     spec["seed"] = rng.randrange(1 << 30)
+    if rng.random() < 0.3:
+        spec["reuse"] = rng.randrange(1, 1 << 30)      # see reuse_buffers
     if rng.random() < 0.35:
         # lifecycle: before every [every]-th operation the live archive is replaced by a copy of itself (copy.deepcopy / pickle round trip);
         # a copy must behave exactly like the original from then on (no model operation corresponds to it)
-        spec["relay"] = {"how": rng.choice(["deepcopy", "pickle"]), "every": rng.choice([1, 2, 3, 5])}
+        spec["relay"] = {"how": rng.choice(["deepcopy", "pickle", "fork-deepcopy", "fork-pickle"]), "every": rng.choice([1, 2, 3, 5])}
     return spec
 
 
@@ -111,11 +113,21 @@ def relay(archive, spec, step):
     r = spec.get("relay")
     if not r or step == 0 or step % r["every"] != 0:
         return archive
-    if r["how"] == "deepcopy":
-        import copy
-        return copy.deepcopy(archive)
+    import copy
     import pickle
-    return pickle.loads(pickle.dumps(archive))
+    how = r["how"]
+    twin = copy.deepcopy(archive) if how.endswith("deepcopy") else pickle.loads(pickle.dumps(archive))
+    if not how.startswith("fork-"):
+        return twin
+    # fork: the COPY goes its own way (a burst of far-away additions, then clear) and is dropped; the original must not notice
+    try:
+        nd = measure_dim(spec)
+        for j in range(12):
+            twin.add_single(**single_args(dict(spec, reuse=None), [900000 + j, 50.0 + j, [(-1) ** j * (3.0 + j)] * nd]))
+        twin.clear()
+    except Exception:  # noqa   (whatever the copy does is its own business)
+        pass
+    return archive
 
 
 def make_archive(spec):
@@ -207,12 +219,43 @@ def batch_arrays(spec, cands, container="nd"):
             if name == "ev":
                 arr = arr.reshape(n, 2)
         kw[name] = arr
-    return kw
+    if container == "narrow" and spec["dtype"] == "d" and not spec.get("odtype"):
+        # a float32 objective array handed to a float64 archive (when every value is a float32 value, so nothing is lost)
+        o32 = np.asarray(obj, dtype=np.float64).astype(np.float32)
+        if np.array_equal(o32.astype(np.float64), np.asarray(obj, dtype=np.float64)):
+            kw["objective"] = o32
+    return reuse_buffers(spec, kw, "b") if container == "nd" else kw
+
+
+_POOL = {}
+
+
+def reuse_buffers(spec, kw, tag):
+    """callers often keep ONE preallocated array per argument and refill it in place between calls (same object, new contents): with
+    spec["reuse"] every numeric ndarray argument of a given shape is such a buffer"""
+    key0 = spec.get("reuse")
+    if not key0:
+        return kw
+    if len(_POOL) > 4000:
+        _POOL.clear()
+    out = {}
+    for name, v in kw.items():
+        if isinstance(v, np.ndarray) and v.dtype != object and v.ndim >= 1:
+            key = (key0, tag, name, v.shape, v.dtype.str)
+            if key in _POOL:
+                _POOL[key][...] = v
+                v = _POOL[key]
+            else:
+                _POOL[key] = v
+        out[name] = v
+    return out
 
 
 def single_args(spec, c, container="nd"):
-    kw = batch_arrays(spec, [c], "wide" if container == "wide" else "nd")
+    kw = batch_arrays(dict(spec, reuse=None), [c], "wide" if container == "wide" else "nd")
     out = {k: v[0] for k, v in kw.items()}
+    if container == "nd":
+        out = reuse_buffers(spec, {k: (np.array(v, copy=True) if isinstance(v, np.ndarray) else v) for k, v in out.items()}, "s")
     if container == "wide":
         out["objective"] = np.float64(out["objective"])
     if container == "list":
@@ -602,11 +645,11 @@ def gen_history(rng, spec, nops, max_batch, obj_gen, tie_rate=0.25, clear_rate=0
         return [i, o, gen_measures(rng, spec, pool)]
     for _ in range(nops):
         r = rng.random()
-        cont = rng.choice(["nd", "nd", "nd", "list", "f64"])
+        cont = rng.choice(["nd", "nd", "nd", "list", "f64", "narrow"])
         if r < clear_rate:
             ops.append(["clear"])
         elif r < clear_rate + single_rate:
-            ops.append(["add_single", cand(), cont if cont != "f64" else "nd"])
+            ops.append(["add_single", cand(), cont if cont not in ("f64", "narrow") else "nd"])
         else:
             n = rng.choice([0, 1, 2, 3, 5, 8, max_batch])
             ops.append(["add", [cand() for _ in range(n)], cont if n else "nd"])
